@@ -41,6 +41,14 @@ def shards(tier, seed):
              "max_out": 20, "big": True} for i in range(16)]
 
 
+def segwit_args(rng):
+    """half of the requests relayed through the stack ask for the segwit sighash mode: the
+    transaction handed to the device is cleared in the same way"""
+    if rng.random() < 0.5:
+        return None
+    return (rng.randbytes(rng.choice([1, 71, 105, 253])), rng.choice([1, 546, 2**63, 12345678]))
+
+
 def _call(fn, *a):
     try:
         return fn(*a), None
@@ -181,7 +189,7 @@ def run_shard(spec, acc):
             except btc.Malformed:
                 pass
             req = rq.sign_auth_request(rq.AUTH_PATHS[0], raw, 0, rq.gen_receipt(rng),
-                                       rq.gen_proof(rng))
+                                       rq.gen_proof(rng), segwit_args(rng))
             # the very same request up to three times in a row, sometimes right after a
             # well-formed one: the verdict may not depend on what was asked before
             if rng.random() < 0.5:
@@ -214,9 +222,12 @@ def run_shard(spec, acc):
         for i in range(spec["n_stack"]):
             tx = btctx.gen_tx(rng, max_in=3, max_out=3)
             nrec = len(dev.sign_records)
+            sw = segwit_args(rng)
+            if sw:
+                acc.count("stack_relays_in_segwit_mode")
             req = rq.sign_auth_request(rq.AUTH_PATHS[i % 2], tx["raw"],
                                        rng.randrange(len(tx["ins"])), rq.gen_receipt(rng),
-                                       rq.gen_proof(rng))
+                                       rq.gen_proof(rng), sw)
             reply, exc, out = s.request(req)
             acc.count("stack_relays")
             if exc is not None or reply is None or reply.get("errorcode") != 0 or \
